@@ -369,7 +369,7 @@ def run(tier):
     full_doc = parse(full_query)
     fragments_text = full_query[full_query.index("fragment FullType"):]
     lookup_query = "query L($n: String!) { __type(name: $n) { ...FullType } }\n" + fragments_text
-    n_schemas = 24 if quick else 160
+    n_schemas = 30 if quick else 160
     validated = set()
     n_model_cases = [0]
 
@@ -513,6 +513,14 @@ def run(tier):
         d = G.first_diff(G.dump(s), G.dump(c))
         if d:
             ck.violation(key, f"client schema differs from the original: {d}", rep0)
+        # extracted build_client on the wire-encoded full result vs the real client schema
+        want = G.encode_schema(c, all_types=True, default_text=True)
+        o = m.run_batch([[11] + wfull])[0]
+        n_model_cases[0] += 1
+        if o != [1] + want:
+            j = next((j for j, (a, b) in enumerate(zip(o, [1] + want)) if a != b), min(len(o), len(want) + 1))
+            ck.violation(key, f"model disagrees: Client.build_client(full result) vs build_client_schema (wire offset {j})",
+                         dict(rep0, impl_around=want[max(0, j - 21):j + 9], model_around=o[max(0, j - 20):j + 10]))
         if validate_schema(c):
             ck.violation(key, f"client schema is invalid: {validate_schema(c)[0].message}", rep0)
         try:
